@@ -15,6 +15,7 @@
     character that no block pattern begins with — is inert (`C14_inert_of_plain`, `C14_inert_of_plainStart`).
 -/
 import Mistletoe.Proofs.Inert
+import Mistletoe.Proofs.InertInline
 namespace Mistletoe.Props.C14
 open Mistletoe Mistletoe.Py Mistletoe.Scan Mistletoe.Block
 
@@ -29,7 +30,7 @@ open Mistletoe Mistletoe.Py Mistletoe.Scan Mistletoe.Block
     `[` that could begin a link reference definition. -/
 def inertLine (s : Str) : Bool :=
   !isBlank s && !blockCodeStart s && (heading s).isNone && !quoteStart s && (codeFenceStart s).isNone
-  && !thematicBreak s && !listStart s && (listItem s).isNone
+  && !thematicBreak s && !listStart s && (Scan.listItem s).isNone
   && (match htmlBlockStart s with | .ok none => true | _ => false)
   && !setext s && !delimiterRow s && !startsWith ['['] (lstrip s)
 
@@ -308,5 +309,204 @@ example : blockPhase { types := markdownTypes } 17 (joinBlank (sample.take 2) [s
     .ok ({ entries := [.paragraph (sample.take 2) 1 1, .blankLine 3 3, .paragraph (sample.drop 2) 4 4], loose := false }, {}) :=
   C14_blank_separated_phase { types := markdownTypes } (by decide) (sample.take 2) [sample.drop 2]
     (by decide +kernel) (by decide +kernel) 0
+
+
+/-! ## Inline half: inert text stays text
+
+  The predicate (defined in `Proofs/InertInline.lean`), character by character.  `inertBody s` holds when
+
+  * `s` contains no backslash and no backtick;
+  * every `<` is the last character or is followed by a character other than an ASCII letter or
+    digit and other than ``.!#$%&'*+/=?^_`{|}~-`` (so: a space, a newline, `(`, `,`, `"`, `<`, `>`, …),
+    which rules out autolinks and every kind of raw HTML (`ltOk`);
+  * after every `&`, the run of characters other than tab, newline, form feed, space, `<`, `&`, `;`
+    is not followed by `;` — no character reference starts there (`ampOk`: "a & b", "AT&T", "x &" pass,
+    "&amp;", "&#35;" do not);
+  * there is no `~~` (`tildeOk`);
+  * after the first `[` there is no `]` (`bracketsOk`: unpaired brackets, also `![`);
+  * no run of `*` or of `_` can close emphasis (`emphOk`: the run is not right-flanking, or — for `_` —
+    is also left-flanking and not followed by punctuation; e.g. intraword `_`, `*` or `_` between
+    spaces, `*` or `_` at the start of a word);
+  * every other character is unrestricted: letters, digits, spaces, newlines, non-ASCII text and
+    ``. , ; : ( ) - + = | # > / ' " ^ $ % @ ? ! { }`` and single `~`.
+
+  `inertText s` = `inertBody s` and `s` contains no newline.
+  Covered span token classes (`inertClass`): all except `Math` and `GithubWiki`, which give `$` and
+  `[[ | ]]` a meaning; in particular the default HTML list `htmlSpanTypes`, in any order, with or
+  without `Strikethrough`. -/
+
+open Mistletoe.Inline Mistletoe.InertInline
+
+/-- `span_token._token_types` under the HTML renderer (RawText, the fallback, is implicit) -/
+def htmlSpanTypes : List STok :=
+  [.escapeSequence, .htmlSpan, .autoLink, .coreTokens, .inlineCode, .lineBreak, .strikethrough]
+
+theorem htmlSpanTypes_inert : ∀ t ∈ htmlSpanTypes, inertClass t = true := by decide
+
+/-- **No candidates, one RawText.**  For every token-class list and definitions table: if no class
+    finds a match in a non-empty string, `tokenize_inner` returns exactly one `RawText`, whose content
+    is `html.unescape` of the whole string. -/
+theorem C14_no_candidates_raw (types : List STok) (fn : Footnotes.Table) (s : Str)
+    (h : findAll s types fn = .ok []) (hne : s ≠ []) :
+    tokenizeInner types fn s = .ok [.rawText (Unescape.unescape true s)] :=
+  tokenizeInner_no_candidates types fn s h hne
+
+/-- for the empty string `tokenize_inner` returns no token at all (`make_tokens` adds no empty RawText) -/
+theorem C14_no_candidates_empty (types : List STok) (fn : Footnotes.Table) (h : findAll [] types fn = .ok []) :
+    tokenizeInner types fn [] = .ok [] :=
+  tokenizeInner_no_candidates_nil types fn h
+
+/-- **Inert one-line text is one RawText holding exactly the text.**  For every list of covered
+    classes (in any order, with repetitions) and every definitions table: no class finds a match,
+    `html.unescape` is the identity on the text, and `tokenize_inner` returns `[RawText(text)]`. -/
+theorem C14_inline_inert (types : List STok) (fn : Footnotes.Table) (s : Str)
+    (ht : ∀ t ∈ types, inertClass t = true) (h : inertText s = true) :
+    findAll s types fn = .ok [] ∧ Unescape.unescape true s = s ∧
+      (s ≠ [] → tokenizeInner types fn s = .ok [.rawText s]) := by
+  refine ⟨findAll_inert s types fn ht h, ?_, tokenizeInner_inert types fn s ht h⟩
+  simp only [inertText, Bool.and_eq_true] at h
+  exact unescape_inert s (inertBody_parts s h.1).2.1
+
+/-- the same for the HTML renderer's token list -/
+theorem C14_inline_inert_html (fn : Footnotes.Table) (s : Str) (h : inertText s = true) (hne : s ≠ []) :
+    tokenizeInner htmlSpanTypes fn s = .ok [.rawText s] :=
+  (C14_inline_inert htmlSpanTypes fn s htmlSpanTypes_inert h).2.2 hne
+
+/-- **Several inert lines.**  `ts` are the lines of a paragraph as `Paragraph.__init__` joins them
+    (non-empty, no newline inside, not ending in a space; backslashes are excluded by `inertBody`), the
+    joined text is inert, the token list consists of covered classes and contains `LineBreak` once:
+    `tokenize_inner` returns the lines as `RawText`s, in order, each holding exactly its line, with
+    one soft `LineBreak` between consecutive lines, and nothing else. -/
+theorem C14_inline_lines (types : List STok) (fn : Footnotes.Table) (ts : List Str)
+    (ht : ∀ t ∈ types, inertClass t = true) (hc : types.count .lineBreak = 1) (hne : ts ≠ [])
+    (hl : ∀ t ∈ ts, t ≠ [] ∧ '\n' ∉ t ∧ t.getLast? ≠ some ' ')
+    (hb : inertBody (Document.joinNl ts) = true) :
+    tokenizeInner types fn (Document.joinNl ts) = .ok (proseInlines ts) := by
+  refine tokenizeInner_lines types fn ts ht hc hne ?_ hb
+  intro t htm
+  obtain ⟨h1, h2, h3⟩ := hl t htm
+  refine ⟨h1, h2, ?_, h3⟩
+  intro hm
+  exact ((inertBody_parts _ hb).1.ok '\\' (mem_joinNl ts t htm _ hm)).1 rfl
+
+/-! ## End to end -/
+
+open Mistletoe.Html Mistletoe.Escape
+
+/-- **One line of prose.**  The block token types contain `Paragraph`, the span token classes are
+    covered ones; the line is block-inert (`inertLine`) and its stripped content is inline-inert
+    (`inertText`).  Then `Document([l])` is one `Paragraph` on line 1 whose only child is a `RawText`
+    holding exactly the stripped line, there are no link definitions, and the HTML renderer (every
+    quote option) gives `<p>`, that text HTML-escaped by `escape_html_text`, `</p>` and a newline. -/
+theorem C14_prose_line (cfg : Document.Cfg) (hpar : .paragraph ∈ cfg.block.types)
+    (ht : ∀ t ∈ cfg.span, inertClass t = true) (l : Str) (hl : inertLine l = true)
+    (hi : inertText (strip l) = true) (gas : Nat) :
+    Document.parseLines cfg (gas + (cfg.block.types.length + 4)) [l] =
+        .ok { kids := [.paragraph [.rawText (strip l)] 1], footnotes := [] } ∧
+    ∀ o : Opts, render o { kids := [.paragraph [.rawText (strip l)] 1], footnotes := [] } =
+        "<p>".toList ++ escapeHtmlText o.dq o.sq (strip l) ++ "</p>\n".toList := by
+  constructor
+  · unfold Document.parseLines
+    rw [C14_block_phase cfg.block hpar [l] (by simp) (by simpa using hl) gas]
+    simp only
+    rw [mkBlocks_prose_line cfg _ l 1 1 ht (inertLine_quiet l hl).nb hi]
+    rfl
+  · intro o
+    have := render_prose o [strip l] 1 []
+    simpa [proseInlines, Document.joinNl] using this
+
+/-- **A paragraph of prose.**  The block token types contain `Paragraph`; the span token classes are
+    covered ones and contain `LineBreak` once (e.g. `htmlSpanTypes`); every line is block-inert
+    (`inertLine`) and has the shape indentation + text + "\n" with no whitespace before the "\n"
+    (`proseLine`); the stripped lines joined by "\n" are inline-inert (`inertBody`).  Then
+    `Document(ls)` is one `Paragraph` on line 1 whose children are the stripped lines as `RawText`s,
+    in order, with soft `LineBreak`s between them; there are no link definitions; and the HTML
+    renderer (every quote option) gives `<p>`, the stripped lines joined by "\n" and HTML-escaped by
+    `escape_html_text`, `</p>` and a newline: nothing dropped, added, reordered or turned into markup. -/
+theorem C14_prose (cfg : Document.Cfg) (hpar : .paragraph ∈ cfg.block.types)
+    (ht : ∀ t ∈ cfg.span, inertClass t = true) (hc : cfg.span.count .lineBreak = 1)
+    (ls : List Str) (hne : ls ≠ []) (hl : ∀ l ∈ ls, inertLine l = true ∧ proseLine l = true)
+    (hi : inertBody (Document.joinNl (ls.map strip)) = true) (gas : Nat) :
+    Document.parseLines cfg (gas + (cfg.block.types.length + 4)) ls =
+        .ok { kids := [.paragraph (proseInlines (ls.map strip)) 1], footnotes := [] } ∧
+    ∀ o : Opts, render o { kids := [.paragraph (proseInlines (ls.map strip)) 1], footnotes := [] } =
+        "<p>".toList ++ escapeHtmlText o.dq o.sq (Document.joinNl (ls.map strip)) ++ "</p>\n".toList := by
+  constructor
+  · unfold Document.parseLines
+    rw [C14_block_phase cfg.block hpar ls hne (fun s hs => (hl s hs).1) gas]
+    simp only
+    rw [mkBlocks_prose cfg _ ls 1 1 ht hc hne (fun s hs => (hl s hs).2) hi]
+    rfl
+  · intro o
+    exact render_prose o (ls.map strip) 1 []
+
+/-- when the text moreover contains none of `& < > " '`, the output is the text itself between
+    `<p>` and `</p>` -/
+theorem C14_prose_verbatim (cfg : Document.Cfg) (hpar : .paragraph ∈ cfg.block.types)
+    (ht : ∀ t ∈ cfg.span, inertClass t = true) (hc : cfg.span.count .lineBreak = 1)
+    (ls : List Str) (hne : ls ≠ []) (hl : ∀ l ∈ ls, inertLine l = true ∧ proseLine l = true)
+    (hi : inertBody (Document.joinNl (ls.map strip)) = true)
+    (hp : ∀ c ∈ Document.joinNl (ls.map strip), c ≠ '&' ∧ c ≠ '<' ∧ c ≠ '>' ∧ c ≠ '"' ∧ c ≠ '\'')
+    (gas : Nat) (o : Opts) :
+    ∃ doc, Document.parseLines cfg (gas + (cfg.block.types.length + 4)) ls = .ok doc ∧
+      render o doc = "<p>".toList ++ Document.joinNl (ls.map strip) ++ "</p>\n".toList := by
+  obtain ⟨h1, h2⟩ := C14_prose cfg hpar ht hc ls hne hl hi gas
+  refine ⟨_, h1, ?_⟩
+  rw [h2 o, escape_plain _ _ _ hp]
+
+/-! ### Non-vacuity (inline half and end to end) -/
+
+example : inertText (L "a_b_c * d - 3.14) x | y # z") = true := by decide +kernel
+example : inertText (L "1.5 is + or - = ~ ^ $ % @ [ & AT&T a & b; c < d <, e! ![ x") = true := by decide +kernel
+example : inertText (L "snake_case_name and 2 * 3 and *foo and (a) \"q\" 'r' é ü 日本 ] then [") = true := by decide +kernel
+/-- the predicate is not trivially true: a closing `*`, `*` between digits, strikethrough, a bracket
+    pair, a backslash, code, an HTML tag, character references, `<` before a letter, `_a_`, a newline,
+    a closing `_` -/
+example : [L "foo*", L "2*3", L "a ~~b~~", L "[a]", L "a\\b", L "`c`", L "<a>", L "&amp;", L "&#35;", L "x <y",
+    L "_a_", L "a\nb", L "a_ b"].map inertText = List.replicate 13 false := by decide +kernel
+
+/-- the text comes back as one RawText (by the theorem, and by evaluation) -/
+example : tokenizeInner htmlSpanTypes [] (L "a_b_c * d - 3.14) x | y # z") = .ok [.rawText (L "a_b_c * d - 3.14) x | y # z")] :=
+  C14_inline_inert_html [] _ (by decide +kernel) (by decide)
+/-- the same by evaluation (`Inline` has no decidable equality: compare the rendered inlines) -/
+def inlineHtml (s : Str) : Res Str :=
+  (tokenizeInner htmlSpanTypes [] s).bind (fun k => .ok (flat (renderInlines ⟨false, false⟩ k)))
+example : inlineHtml (L "a_b_c * d - 3.14) x | y # z") = .ok (L "a_b_c * d - 3.14) x | y # z") := by decide +kernel
+/-- … whereas the rejected texts do become markup -/
+example : [L "2*3*4", L "a ~~b~~", L "[a](b)", L "<i>x &amp; `c`"].map inlineHtml =
+    [.ok (L "2<em>3</em>4"), .ok (L "a <del>b</del>"), .ok (L "<a href=\"b\">a</a>"), .ok (L "<i>x &amp; <code>c</code>")] := by
+  decide +kernel
+
+def cfgHtml : Document.Cfg := { block := { types := defaultTypes }, span := htmlSpanTypes }
+
+def prose : List Str := [L "  a_b_c * d - 3.14) x | y # z\n", L "1.5 is + or - = ~ ^ $ % @ [ & AT&T\n", L "c < d <, \"e\"! ![ x\n"]
+
+theorem prose_lines_ok : ∀ l ∈ prose, inertLine l = true ∧ proseLine l = true := by decide +kernel
+theorem prose_text_ok : inertBody (Document.joinNl (prose.map strip)) = true := by decide +kernel
+
+/-- three lines of prose: one paragraph, three RawTexts separated by soft line breaks, rendered as the
+    escaped text (instance of `C14_prose`; the right-hand sides are literal) -/
+example : Document.parseLines cfgHtml 14 prose =
+    .ok { kids := [.paragraph [.rawText (L "a_b_c * d - 3.14) x | y # z"), .lineBreak [] true,
+                               .rawText (L "1.5 is + or - = ~ ^ $ % @ [ & AT&T"), .lineBreak [] true,
+                               .rawText (L "c < d <, \"e\"! ![ x")] 1], footnotes := [] } :=
+  (C14_prose cfgHtml (by decide) htmlSpanTypes_inert (by decide) prose (by decide) prose_lines_ok prose_text_ok 0).1
+
+example : ∃ d, Document.parseLines cfgHtml 14 prose = .ok d ∧ render {} d =
+    L "<p>a_b_c * d - 3.14) x | y # z\n1.5 is + or - = ~ ^ $ % @ [ &amp; AT&amp;T\nc &lt; d &lt;, \"e\"! ![ x</p>\n" := by
+  obtain ⟨h1, h2⟩ := C14_prose cfgHtml (by decide) htmlSpanTypes_inert (by decide) prose (by decide)
+    prose_lines_ok prose_text_ok 0
+  exact ⟨_, h1, by rw [h2]; decide +kernel⟩
+
+/-- and with `html_escape_double_quotes=True` -/
+example : ∃ d, Document.parseLines cfgHtml 14 prose = .ok d ∧ render { dq := true } d =
+    L "<p>a_b_c * d - 3.14) x | y # z\n1.5 is + or - = ~ ^ $ % @ [ &amp; AT&amp;T\nc &lt; d &lt;, &quot;e&quot;! ![ x</p>\n" := by
+  obtain ⟨h1, h2⟩ := C14_prose cfgHtml (by decide) htmlSpanTypes_inert (by decide) prose (by decide)
+    prose_lines_ok prose_text_ok 0
+  exact ⟨_, h1, by rw [h2]; decide +kernel⟩
+
+example : Document.parseLines cfgHtml 14 [L "   (see p. 3) a_b * c\n"] =
+    .ok { kids := [.paragraph [.rawText (L "(see p. 3) a_b * c")] 1], footnotes := [] } :=
+  (C14_prose_line cfgHtml (by decide) htmlSpanTypes_inert (L "   (see p. 3) a_b * c\n") (by decide +kernel) (by decide +kernel) 0).1
 
 end Mistletoe.Props.C14
